@@ -434,8 +434,17 @@ impl<
                 // `America/Sao_Paulo`.) And thus, this would return `None`.
                 // So if it does, we pretend as if the POSIX time zone doesn't
                 // exist.
+                //
+                // N.B. The POSIX TZ string only describes what happens after
+                // the last transition in the TZif data. So if it reports a
+                // transition that doesn't come after it, then the last
+                // transition in the TZif data is the one we want.
                 if let Some(trans) = posix_tz.previous_transition(ts) {
-                    return Some(trans);
+                    if trans.timestamp().as_second()
+                        > self.timestamps()[index]
+                    {
+                        return Some(trans);
+                    }
                 }
             }
             index
@@ -477,26 +486,18 @@ impl<
             // The first transition is a dummy that we insert, so if we land on
             // it here, treat it as if it doesn't exist.
             return None;
-        } else if index >= self.timestamps().len() - 1 {
-            if let Some(posix_tz) = self.posix_tz() {
-                // Since the POSIX TZ must be consistent with the last
-                // transition, it must be the case that next.timestamp <=
-                // posix_next_tans in all cases. So the transition according to
-                // the POSIX TZ is always correct here.
-                //
-                // What if this returns `None` though? I'm not sure in which
-                // cases that could matter, and I think it might be a violation
-                // of the TZif format if it does.
-                //
-                // In the "previous" case above, this could return `None` even
-                // when there are historical time zone transitions in the case
-                // of a time zone eliminating DST (e.g., `America/Sao_Paulo`).
-                // But unlike the previous case, if we get `None` here, then
-                // that is the real answer because there are no other known
-                // future time zone transitions.
-                return posix_tz.next_transition(ts);
-            }
-            self.timestamps().len() - 1
+        } else if index >= self.timestamps().len() {
+            // The timestamp given is at or after the last transition in the
+            // TZif data, so the only way to find a subsequent transition is
+            // through the POSIX TZ string, if one exists. (If it doesn't, or
+            // if it doesn't have any DST rule, then there are no more known
+            // transitions.)
+            //
+            // N.B. We must not consult the POSIX TZ string when the last
+            // transition in the TZif data is still ahead of the timestamp
+            // given. That transition is the answer, and the POSIX TZ string
+            // only describes what happens after it.
+            return self.posix_tz()?.next_transition(ts);
         } else {
             index
         };
